@@ -36,6 +36,11 @@ class RArr(_np.ndarray):
     complex128 array)"""
 
     def astype(self, t, *a, **k):
+        if isinstance(t, _np.dtype):
+            if t == object or t.kind in 'fc':
+                return self.copy()
+            if t.kind in 'iu':
+                t = int
         if t in (float, _np.float64, _np.float32, complex, _np.complex128, ShimFloat, ShimComplex, 'float64', 'float'):
             return self.copy()
         if t in (int, _np.int64, _np.int32, 'int'):
